@@ -88,8 +88,7 @@ Theorem C01p_passes_nonvacuous :
   plain_let all_on nv_rest <> nv_rest /\ run (plain_let all_on nv_rest) = "OK (2 . (3 . ())) OUT 7".
 Proof. exact passes_nonvacuous. Qed.
 
-(* the constant evaluator: no soundness theorem (model tied to the source by the AST correspondence only);
-   the three pre-fix variants are refuted *)
+(* the constant evaluator: the three pre-fix variants are refuted (its soundness theorems are at the end of this file) *)
 Theorem C01p_ceval_unsound_without_rest_guard :
   exists e, run e = "OK () OUT " /\ run (ceval off_rest_used e) = "ERR OUT " /\ run (ceval all_on e) = "OK () OUT ".
 Proof. exact ceval_unsound_without_rest_guard. Qed.
@@ -118,8 +117,9 @@ Proof. exact cvisit_preserves. Qed.
 
 (* the whole pass (three runs of up to eleven visits each, from the empty constant environment).
    Hypotheses, both decidable:
-   [cwf e]      every %plain-let has as many binders as right-hand sides and binds no name twice; a rest lambda has
-                its rest parameter (the first and third cannot be written in the surface syntax);
+   [cwf e]      every %plain-let has as many binders as right-hand sides and every rest lambda has its rest parameter
+                (the surface syntax cannot say otherwise and no modelled pass produces otherwise; parameters or
+                binders of the same name, shadowing, free variables, ill-typed and failing programs are all INCLUDED);
    [ceval_ok e] no visit is stopped by the compile-time ArityMismatch (the compilation succeeds).
    Results are related by a chain of [CE.vrel]: equal first-order values, closures whose bodies are related by CE.ce. *)
 Theorem C01p_consteval_preserves : forall e, cwf e = true -> ceval_ok e = true ->
@@ -144,5 +144,7 @@ Theorem C01p_consteval_nonvacuous :
   cwf nv_ce1 = true /\ ceval_ok nv_ce1 = true /\ ceval all_on nv_ce1 <> nv_ce1 /\
   run nv_ce1 = "OK (4 . (5 . ())) OUT 2 3" /\ run (ceval all_on nv_ce1) = "OK (4 . (5 . ())) OUT 2 3" /\
   cwf nv_ce2 = true /\ ceval_ok nv_ce2 = true /\ ceval all_on nv_ce2 <> nv_ce2 /\
-  run (ceval all_on nv_ce2) = "OK (1 . (2 . ())) OUT 1".
+  run (ceval all_on nv_ce2) = "OK (1 . (2 . ())) OUT 1" /\
+  cwf nv_ce3 = true /\ ceval_ok nv_ce3 = true /\ ceval all_on nv_ce3 = Prim PDisplay (one (Num 42)) /\
+  run nv_ce3 = "OK #<void> OUT 42".
 Proof. exact consteval_nonvacuous. Qed.
